@@ -169,7 +169,8 @@ theorem rstep_frameK (c : Cfg) (hw : WF c) (sh sh' : Sh) (k : Nat) (pc pc' : RPc
       obtain ⟨ret, r⟩ := q
       rcases commitP_some c hw.d2 _ _ _ _ hs with ⟨_, rfl, _⟩ | ⟨_, rfl, _⟩ <;>
         cases ret <;> simp [hs] at h <;> obtain ⟨rfl, rfl⟩ := h <;> constructor <;> simp
-  | close => simp only [rstep, close_returns c hw.d2] at h; simp at h; obtain ⟨rfl, rfl⟩ := h; constructor <;> simp
+  | close => simp only [rstep, close_returns c hw.d2, hw.rc] at h; simp at h; obtain ⟨rfl, rfl⟩ := h; constructor <;> simp
+  | connClose => simp [rstep] at h; obtain ⟨rfl, rfl⟩ := h; constructor <;> simp
   | wgDone =>
     simp [rstep] at h; obtain ⟨rfl, rfl⟩ := h; constructor <;> simp
     intro h0; simp [h0]
